@@ -50,6 +50,11 @@ func (v *Verifier) addSweeps() {
 		v.addFrameObligations()
 	case "C01":
 		v.addEffectSweep("no_uncontracted_uid_write", v.Prog.uidWriteSites)
+	case "C02":
+		// every writer of the SMS login keys preserves the session invariant
+		v.coveredPred = func(key string) bool { return v.hasClause(key, "sms_binding_inv") }
+		v.addEffectSweep("sms_keys_only_under_invariant", v.Prog.smsKeySites)
+		v.coveredPred = nil
 	case "C17":
 		v.addEffectSweep("no_uncontracted_sink", v.Prog.sinkSites)
 	}
